@@ -243,8 +243,10 @@ where
                     w = self.a * v.exp();
                     // ln(alpha / (b + w)) + v tends to ln(alpha / a) as w = a exp(v) grows; when
                     // exp(v) overflows, `-inf + v` would wrongly reject the proposal
-                    let log_ratio = if w == F::infinity() {
-                        (algo.alpha / self.a).ln()
+                    // For v > 0 evaluate alpha / (b + w) * exp(v) as alpha / (b exp(-v) + a): the two logarithms
+                    // otherwise cancel (losing ~|v| ulps, which alpha then amplifies), and exp(v) may overflow.
+                    let log_ratio = if v > F::zero() {
+                        (algo.alpha / (self.b * (-v).exp() + self.a)).ln()
                     } else {
                         (algo.alpha / (self.b + w)).ln() + v
                     };
